@@ -13,6 +13,9 @@ import PFV.Proofs.ArbLawful
 import PFV.Proofs.MutFacts
 import PFV.Proofs.GenTotal
 import PFV.Proofs.GenRun
+import PFV.Proofs.LexEnc
+import PFV.Api
+import PFV.Reach
 namespace PFV
 open Ref (RKind RState RMemo)
 
@@ -614,4 +617,155 @@ theorem target_bounds {σ} (E : Entropy σ) (X : G.Ext) (c : Cfg) (hs : SafeCfg 
   exact ⟨h1, h2, h3⟩
 end C11
 
+end PFV
+
+namespace PFV
+
+/-! ## C04 — well-formed opcode stream: the reference lexer inverts the generator's encoders -/
+namespace C04
+
+/-- one instruction: the reference reader reads back exactly what the encoder wrote -/
+theorem lexOne_encode (i : Instr) (h : WF i = true) (rest : List UInt8) :
+    Lex.lexOne (Enc.encode i ++ rest) = .ok (i, rest) := PFV.lexOne_encode i h rest
+
+/-- **C04 (encoding/lexing).**  Every list of well-formed instructions (argument of the shape and
+inside the domain `WF` prescribes per opcode: decimal text, `L` suffix, quoted STRING body valid
+for `escape_decode`, raw-unicode-escape text, length prefixes of 1/4/8 bytes little-endian,
+big-endian BINFLOAT, module/name pairs, …) that ends in its only STOP is decoded completely and
+exactly by the reference lexer: every opcode byte known, every argument fully present, one STOP,
+nothing after it. -/
+theorem lex_encode (pre : List Instr) (hwf : ∀ i ∈ pre, WF i = true) (hns : ∀ i ∈ pre, i.op ≠ .stop) :
+    Lex.lex ((pre ++ [stopI]).flatMap Enc.encode) = .ok (pre ++ [stopI]) :=
+  PFV.lex_encode pre hwf hns
+
+/-- decimal round trip used by INT / LONG / GET / PUT -/
+theorem decimal_roundtrip (v : Int) : Lex.pyInt (Enc.showInt v) = some v := pyInt_showInt v
+
+end C04
+
+/-! ## C07 — nothing but configuration and entropy reaches a decision -/
+namespace C07
+
+/-- the one place where the Rust iterates an unordered structure (`memo.keys()` of a `HashMap`) is
+followed by a sort: whatever order the hash map yields its keys in, the list the generator
+indexes into is the same -/
+theorem keys_order_irrelevant (ks1 ks2 : List Nat) (h : ks1.Perm ks2) :
+    ks1.mergeSort (fun a b => decide (a ≤ b)) = ks2.mergeSort (fun a b => decide (a ≤ b)) := by
+  have tr : ∀ (a b c : Nat), decide (a ≤ b) = true → decide (b ≤ c) = true → decide (a ≤ c) = true := by
+    intro a b c h1 h2; simp at *; omega
+  have tot : ∀ (a b : Nat), (decide (a ≤ b) || decide (b ≤ a)) = true := by
+    intro a b; simp; omega
+  apply List.Perm.eq_of_pairwise (le := fun a b => decide (a ≤ b) = true)
+  · intro a b _ _ h1 h2; simp at h1 h2; omega
+  · exact List.pairwise_mergeSort tr tot ks1
+  · exact List.pairwise_mergeSort tr tot ks2
+  · exact (List.mergeSort_perm ks1 _).trans (h.trans (List.mergeSort_perm ks2 _).symm)
+
+/-- by construction the model's generation is a function of configuration and entropy state only
+(no clock, address, thread or OS input exists in it); stated for the record -/
+theorem generate_deterministic {σ} (E : Entropy σ) (X : G.Ext) (c : Cfg) (s : σ) :
+    ∀ r1 r2, G.generate E X c s = r1 → G.generate E X c s = r2 → r1 = r2 := by
+  intro r1 r2 h1 h2; rw [← h1, ← h2]
+
+end C07
+
+/-! ## C08 — a generator can be reused -/
+namespace C08
+open Api
+variable {σ : Type} (E : Entropy σ) (X : G.Ext)
+
+theorem reset_cfg (o : Obj) : (reset o).cfg = o.cfg := rfl
+
+theorem generateOn_cfg (o o' : Obj) (s s' : σ) (b : List UInt8)
+    (h : generateOn E X o s = .ok (b, o', s')) : o'.cfg = o.cfg := by
+  simp only [generateOn] at h
+  split at h
+  · simp at h
+  · simp only [Except.ok.injEq, Prod.mk.injEq] at h
+    rw [← h.2.1]; rfl
+
+theorem runHistory_cfg : ∀ (h : List (Call σ)) (o : Obj), (runHistory E X o h).cfg = o.cfg
+  | [], o => rfl
+  | .reset :: rest, o => by simp [runHistory, runHistory_cfg rest, reset_cfg]
+  | .gen s :: rest, o => by
+    simp only [runHistory]
+    split
+    · rename_i b o' s' hg
+      rw [runHistory_cfg rest o', generateOn_cfg E X o o' s s' b hg]
+    · exact runHistory_cfg rest o
+
+/-- a call's result depends on the object only through its configuration -/
+theorem result_congr (o1 o2 : Obj) (h : o1.cfg = o2.cfg) (s : σ) : result E X o1 s = result E X o2 s := by
+  simp [result, generateOn, reset, h]
+
+/-- **C08.**  For every history of `generate` / `generate_from_arbitrary` / `reset` calls (any
+length, any inputs, erroring calls included) on one generator and every final call: the result
+is the one a fresh generator with the same configuration returns for that call alone. -/
+theorem history_independent (c : Cfg) (h : List (Call σ)) (s : σ) :
+    result E X (runHistory E X (fresh c) h) s = result E X (fresh c) s :=
+  result_congr E X _ _ (runHistory_cfg E X h (fresh c)) s
+
+/-- the pre-repair behaviour (no reset at the start of `generate_internal`) is *not* history
+independent: whatever an earlier call left in the output buffer is returned again in front -/
+theorem legacy_not_history_independent (c : Cfg) (leftover : List Instr) (hne : leftover ≠ [])
+    (s : σ) (b : List UInt8)
+    (h : Legacy.result E X (fresh c) s = .ok b) :
+    Legacy.result E X { cfg := c, scratch := { sim := initState c.version, out := leftover } } s ≠ .ok b := by
+  simp only [Legacy.result, fresh] at h ⊢
+  split at h
+  · simp at h
+  · rename_i r s' hg
+    simp only [List.reverse_nil, List.flatMap_nil, List.nil_append, Except.ok.injEq] at h
+    intro e
+    simp only [Except.ok.injEq] at e
+    rw [← h] at e
+    have hl := congrArg List.length e
+    simp only [List.length_append] at hl
+    have hpos : 0 < (leftover.reverse.flatMap Enc.encode).length := by
+      cases hr : leftover.reverse with
+      | nil => simp at hr; exact absurd hr hne
+      | cons x t => simp [Enc.encode]
+    omega
+
+end C08
+end PFV
+
+namespace PFV
+/-! ## C12 — every opcode of the vocabulary is reachable (guards half) -/
+namespace C12
+open Reach
+
+/-- **C12 (no dead guard).**  For every protocol `P ≤ 5` and every opcode of the (translated) table
+for `P`, other than PROTO/FRAME/STOP which the header and the end of generation write: there is
+a path of guarded steps over opcodes of the same table, from the empty state, after which the
+opcode's guard holds (with the opt-in flags on). -/
+theorem all_reachable : ∀ p, p < 6 → ∀ op ∈ Gen.table p, reachOk p op = true := by
+  decide
+
+/-- the witness paths are runs of guarded steps: unfolding of the checker -/
+theorem runPath_steps (c : Cfg) : ∀ (is : List Instr) (s s' : State), runPath c s is = some s' →
+    ∀ i ∈ is, ∃ s0, canEmit c s0 i.op = true
+  | [], _, _, _ => by simp
+  | i :: is, s, s', h => by
+    simp only [runPath, step?] at h
+    split at h
+    · rename_i s1 hs
+      split at hs
+      · rename_i hc
+        simp only [Option.some.injEq] at hs
+        intro j hj
+        rcases List.mem_cons.mp hj with rfl | hj
+        · exact ⟨s, by simp only [Bool.and_eq_true] at hc; exact hc.1⟩
+        · exact runPath_steps c is s1 s' h j hj
+      · simp at hs
+    · simp at h
+
+/-- PROTO is written by the header exactly when the protocol is ≥ 2; FRAME may be written for
+protocol ≥ 4 (both values of the frame coin give runs); STOP ends every run -/
+theorem header_and_stop (c : Cfg) (table : List Op) (is : List Instr) (h : Run c table is) :
+    is.getLast? = some stopInstr := by
+  obtain ⟨frame, body, sb, _, _, rfl⟩ := h.run
+  simp
+
+end C12
 end PFV
